@@ -44,6 +44,8 @@ def gen(rng, tier):
             # explicit shutdown(wait=False)): harmless - in particular no second sweep
             "again": rng.choice([None, None, None, True, False]), "again_at": rng.choice([0, 0.05])}
     spec["sim"] = runner.draw_sim_cfg(rng, est=400)
+    if spec["shutdown_await"] or any(op[0] == "await" for ops in clients for op in ops):
+        runner.prefer_place(spec["sim"], 0.3)
     spec["sim"]["horizon_s"] = 5000
     return spec
 
